@@ -44,6 +44,8 @@ func (lens *lens[S, A]) Gett(s any) A {
 
 // NewReflector instantiates a typed Reflector[S, A] for hseq.Type[S]
 func NewReflector[S, A any](t hseq.Type[S]) Reflector[A] {
+	assertContainer(t)
+
 	ft := t.Type
 	fv := reflect.TypeOf(new(A)).Elem()
 
